@@ -76,6 +76,12 @@ fn add_description_for_type_decl(
         }
     }
 
+    // a declaration without description text must not overwrite (or take ownership of) the
+    // description another declaration of the same type gave it
+    if description_text.is_empty() {
+        return;
+    }
+
     analyzer.get_db().get_property_index_mut().add_description(
         file_id,
         LuaSemanticDeclId::TypeDecl(type_decl_id.clone()),
